@@ -16,6 +16,7 @@ Ops (all byte strings hex, `-` = empty):
 * `raw <s|p> <k> { <head> <body> <framing> <cuts> <plan> }*k`   raw client -> real server, k requests on one connection
 * `options <0|1>`                               1: OPTIONS requests reach the handler
 * `sockio w <body> <sched>` / `sockio r <body> <cuts> <size>`   Socket::write / Socket::read over a socketpair
+* `dl <seed> <sizes> <n> {<file> <b> <e> <pace>}*n`   concurrent file downloads, every body byte checked against a formula
 * `par ..` / `big ..`                           concurrency / very large bodies: judged by the property oracle; the
                                                 model prints the verdict the oracle requires (`ok <n>`).
 -/
@@ -265,6 +266,80 @@ def frameStream (head body : Bytes) (fr : String) : Bytes :=
     hx ++ (if ext then ";a=b".toUTF8.toList else []) ++ crlf ++ p ++ crlf
   head ++ (parts.map enc).flatten ++ (if noend then [] else lastChunk)
 
+/-! ### `dl`: concurrent file downloads with position-dependent content -/
+
+def dlByte (seed f o : Nat) : UInt8 :=
+  UInt8.ofNat ((((o + 1) * 2654435761 + (f + 1) * 40503 * (o / 1000 + 1) + seed) % 4294967296) / 8192 % 256)
+
+def dlContent (seed f n : Nat) : Bytes :=
+  let rec go (k : Nat) (o : Nat) (acc : Array UInt8) : Array UInt8 :=
+    match k with
+    | 0 => acc
+    | k + 1 => go k (o + 1) (acc.push (dlByte seed f o))
+  (go n 0 (Array.mkEmpty n)).toList
+
+def dlSlice (seed f from_ len : Nat) : Bytes :=
+  let rec go (k : Nat) (o : Nat) (acc : Array UInt8) : Array UInt8 :=
+    match k with
+    | 0 => acc
+    | k + 1 => go k (o + 1) (acc.push (dlByte seed f o))
+  (go len from_ (Array.mkEmpty len)).toList
+
+structure DlClient where
+  file : Nat
+  b : Int
+  e : Int
+  pace : Nat
+
+/-- the oracle: (status, Content-Length, Content-Range, first offset, length) a client must observe -/
+def dlExpect (n : Nat) (c : DlClient) : Nat × Bytes × Bytes × Nat × Nat :=
+  if c.b < 0 then (200, utoa n, [], 0, n)
+  else if c.b ≤ c.e ∧ c.e < (n : Int) then
+    (206, utoa (c.e - c.b + 1).toNat, contentRangeText c.b.toNat c.e.toNat n, c.b.toNat, (c.e - c.b + 1).toNat)
+  else (416, [48], contentRangeStar n, 0, 0)
+
+def sBin : Bytes := [98, 105, 110]
+
+def dlRequest (c : DlClient) : Bytes :=
+  s!"GET /dl/{c.file} HTTP/1.1\r\nHost: x\r\n".toUTF8.toList ++
+    (if c.b < 0 then [] else s!"Range: bytes={c.b}-{c.e}\r\n".toUTF8.toList) ++ "Connection: close\r\n\r\n".toUTF8.toList
+
+/-- model verdict for one `dl` op: every connection is served through `runSched` (files up to 1 MiB are materialised and
+every body byte compared; for larger files the announced status / length / range are computed by the range arithmetic
+and the body bytes follow from `range_spec`) -/
+def opDl (seed : Nat) (sizes : List Nat) (cs : List DlClient) : String :=
+  let small (c : DlClient) : Bool := sizes.getD c.file 0 ≤ 1048576
+  let conns : List Conn := cs.map fun c =>
+    let n := sizes.getD c.file 0
+    if small c then Conn.start [{ code := 200, headers := [], kind := .file (dlContent seed c.file n) sBin }] (dlRequest c)
+    else Conn.start [] []
+  let server : Server := fun k => conns.getD k default
+  -- a schedule that interleaves the connections in a seed-dependent order
+  let order := ((List.range cs.length).toArray.qsort (fun a b => (a * 7919 + seed) % 104729 < (b * 7919 + seed) % 104729)).toList
+  let final := runSched true sBase order server
+  let verdicts := (List.range cs.length).map fun k =>
+    match cs[k]? with
+    | none => false
+    | some c =>
+      let n := sizes.getD c.file 0
+      let (code, cl, cr, from_, len) := dlExpect n c
+      if small c then
+        match (final k).out with
+        | [(_, wire)] =>
+          let (r, _) := readResponse (Inp.ofBytes wire)
+          r.code == code && header r.headers sContentLength == cl && header r.headers sContentRange == cr &&
+            r.body == dlSlice seed c.file from_ len
+        | _ => false
+      else
+        -- header arithmetic of putFile
+        if c.b < 0 then code == 200
+        else match rangeOf n c.b c.e with
+          | some (b', e') => code == 206 && cl == utoa (e' - b' + 1) && cr == contentRangeText b' e' n && from_ == b' && len == e' - b' + 1
+          | none => code == 416
+  match verdicts.findIdx? (· == false) with
+  | some k => s!"bad client {k}"
+  | none => s!"ok {cs.length}"
+
 structure St where
   options : Bool := true    -- OPTIONS handled by the library's handleOptions
 
@@ -346,6 +421,21 @@ def step (st : St) (ts : List String) : St × String :=
       let pieces := (cs.zip (0 :: cs)).map (fun (a, b) => a - b)
       let (out, err) := sockRead pieces d n
       (st, s!"{out.length} {digest out} {if err then 1 else 0}")
+    | _, _ => (st, "bad-op")
+  | "dl" :: seed :: sizes :: n :: rest =>
+    match seed.toNat?, n.toNat? with
+    | some seed, some n =>
+      let rec parse (k : Nat) (ts : List String) (acc : List DlClient) : Option (List DlClient) :=
+        match k, ts with
+        | 0, [] => some acc.reverse
+        | k + 1, f :: b :: e :: p :: ts =>
+          match f.toNat?, b.toInt?, e.toInt?, p.toNat? with
+          | some f, some b, some e, some p => parse k ts ({ file := f, b := b, e := e, pace := p } :: acc)
+          | _, _, _, _ => none
+        | _, _ => none
+      match parse n rest [] with
+      | some cs => (st, opDl seed ((natList sizes).map (· % 1073741825)) cs)
+      | none => (st, "bad-op")
     | _, _ => (st, "bad-op")
   | "par" :: n :: r :: _ =>
     match n.toNat?, r.toNat? with
